@@ -412,12 +412,15 @@ def main(argv):
         modules=['Alpaqa.Props.C01', 'Alpaqa.Props.C01_Alm', 'Alpaqa.Props.C01_C04', 'Alpaqa.Props.C01_Zerofpr',
                  'Alpaqa.Props.C01_Pantr', 'Alpaqa.Props.C01_Pantr_C04', 'Alpaqa.Props.C01_Fista',
                  'Alpaqa.Props.C01_Zerofpr_C04', 'Alpaqa.Props.PantrNewtonTR', 'Alpaqa.Props.C01_Fista_C04',
-                 'Alpaqa.Props.ZerofprDirections'], driver=None,
+                 'Alpaqa.Props.ZerofprDirections', 'Alpaqa.Props.C01_Zerofpr_Providers_C04'], driver=None,
         extra_sources=['Alpaqa/Gen/C15.lean', 'Alpaqa/Gen/C06.lean', 'Alpaqa/Gen/C01.lean', 'Alpaqa/Proofs/VecLemmas.lean',
                        'Alpaqa/Proofs/C01Panoc.lean', 'Alpaqa/Proofs/C01PanocOn.lean', 'Alpaqa/Proofs/PanocInvOn.lean', 'Alpaqa/Proofs/PanocFuel.lean', 'Alpaqa/Proofs/PanocSized.lean', 'Alpaqa/Proofs/C07.lean', 'Alpaqa/Proofs/C07Run.lean',
                        'Alpaqa/Proofs/PanocInv.lean', 'Alpaqa/Model/Panoc.lean', 'Alpaqa/Model/C07.lean', 'Alpaqa/Props/C04.lean',
                        'Alpaqa/Props/DirectionsLoop.lean', 'Alpaqa/Proofs/C01Zerofpr.lean', 'Alpaqa/Model/Zerofpr.lean',
-                       'Alpaqa/Model/Pantr.lean', 'Alpaqa/Proofs/C01Fista.lean', 'Alpaqa/Model/Fista.lean', 'Alpaqa/Model/C11.lean'],
+                       'Alpaqa/Model/Pantr.lean', 'Alpaqa/Proofs/C01Fista.lean', 'Alpaqa/Model/Fista.lean', 'Alpaqa/Model/C11.lean',
+                       'Alpaqa/Proofs/ZerofprSized.lean', 'Alpaqa/Proofs/ZerofprFuel.lean', 'Alpaqa/Proofs/ZerofprStep.lean',
+                       'Alpaqa/Proofs/PantrSized.lean', 'Alpaqa/Proofs/PantrFuel.lean', 'Alpaqa/Proofs/FistaFuel.lean',
+                       'Alpaqa/Props/Directions.lean'],
         harness_name='almrun', harness_sources=[], harness_builder=lambda: (exe, log),
         gen_ops=gen_ops, monitor=monitor, nontrivial=nontrivial, extra_stage=extra_stage,
         n_quick=120, n_thorough=12000,
